@@ -40,6 +40,23 @@ class TorchCalls(TorchOps):
             if extra or len(args) > 1 or (init is not None and self.const_int(init) != 0 and not (isinstance(init, Const) and init.v is None)):
                 return self.unk("accumulate with a custom function / initial value", node)
             return self.accumulate(args[0], node, initial=init is not None and not (isinstance(init, Const) and init.v is None))
+        if name in ("operator.attrgetter", "operator.itemgetter", "operator.methodcaller") and args and not kwargs and all(isinstance(a, Const) for a in args[:1]):
+            # attrgetter("a") is `lambda x: x.a` (itemgetter / methodcaller likewise): a callable made of source the interpreter can read
+            from .values import LambdaV
+
+            key = args[0].v
+            if name.endswith("attrgetter") and len(args) == 1 and isinstance(key, str) and key.isidentifier():
+                src_ = f"lambda x__: x__.{key}"
+            elif name.endswith("itemgetter") and len(args) == 1 and isinstance(key, (int, str)):
+                src_ = f"lambda x__: x__[{key!r}]"
+            elif name.endswith("methodcaller") and len(args) == 1 and isinstance(key, str) and key.isidentifier():
+                src_ = f"lambda x__: x__.{key}()"
+            else:
+                return self.unk(f"{name} with these arguments", node)
+            lam = ast.parse(src_, mode="eval").body
+            for n_ in ast.walk(lam):
+                ast.copy_location(n_, node)
+            return LambdaV(lam, env, env.module if env is not None else None)
         if name.startswith("operator.") and not kwargs:
             opn = name.split(".", 1)[1].rstrip("_")
             binops = {"lshift": ast.LShift, "rshift": ast.RShift, "or": ast.BitOr, "and": ast.BitAnd, "xor": ast.BitXor, "add": ast.Add, "sub": ast.Sub, "mul": ast.Mult,
@@ -803,6 +820,18 @@ class TorchCalls(TorchOps):
             self.ev("dict_mutation", node, how=name)
             I.rebind(node.func.value, DictV(items=()), env, node)
             return NONE
+        if name == "setdefault" and owner is None and 1 <= len(args) <= 2 and not kwargs:
+            # d.setdefault(k, v): d[k] if k is there, else v after d[k] = v
+            self.ev("dict_mutation", node, how=name)
+            dflt = args[1] if len(args) == 2 else NONE
+            if d.items is not None and any(k_ is args[0] or k_ == args[0] for k_, _ in d.items) and I.join_depth == 0:
+                return next(v_ for k_, v_ in d.items if k_ is args[0] or k_ == args[0])
+            cur = self.dict_val(d) if d.items is None or d.items else None
+            new_d = self.store_subscript(d, ("index", args[0]), dflt if cur is None else join(cur, dflt), node, env, False)
+            if isinstance(new_d, DictV):
+                I.rebind(node.func.value, new_d, env, node)
+                return dflt if cur is None else join(cur, dflt)
+            return self.unk("dict.setdefault on this dictionary", node)
         if name in ("update", "pop", "clear", "setdefault", "popitem"):
             self.ev("dict_mutation", node, how=name)
             return self.unk(f"dict.{name} (mutation not modelled)", node)
